@@ -5,616 +5,9 @@ use std::io::{self, Read, BufReader, BufRead};
 use std::str;
 verus! {
 
-// ===================== prelude (trusted) =====================
-#[verifier::external_type_specification]
-#[verifier::external_body]
-pub struct ExIoError(io::Error);
-#[verifier::external_type_specification]
-pub struct ExIoErrorKind(io::ErrorKind);
-#[verifier::external_type_specification]
-#[verifier::external_body]
-#[verifier::accept_recursive_types(R)]
-pub struct ExBufReader<R: ?Sized>(BufReader<R>);
-#[verifier::external_trait_specification]
-pub trait ExRead { type ExternalTraitSpecificationFor: Read; }
-
-pub uninterp spec fn wire<R: ?Sized>(r: &BufReader<R>) -> Seq<u8>;
-pub uninterp spec fn fault_free<R: ?Sized>(r: &BufReader<R>) -> bool;
-
-pub mod sfx {
-use vstd::prelude::*;
-pub open spec fn is_suffix(a: Seq<u8>, b: Seq<u8>) -> bool {
-    a.len() <= b.len() && a == b.subrange(b.len() - a.len(), b.len() as int)
-}
-pub broadcast proof fn lemma_suffix_refl(a: Seq<u8>)
-    ensures #[trigger] is_suffix(a, a)
-{ assert(a =~= a.subrange(0, a.len() as int)); }
-pub broadcast proof fn lemma_suffix_skip(a: Seq<u8>, k: int)
-    requires 0 <= k <= a.len()
-    ensures #[trigger] is_suffix(a.skip(k), a)
-{ assert(a.skip(k) =~= a.subrange(a.len() - a.skip(k).len(), a.len() as int)); }
-pub broadcast proof fn lemma_suffix_sub(a: Seq<u8>, k: int)
-    requires 0 <= k <= a.len()
-    ensures #[trigger] is_suffix(a.subrange(k, a.len() as int), a)
-{ assert(a.subrange(k, a.len() as int) =~= a.subrange(a.len() - a.subrange(k, a.len() as int).len(), a.len() as int)); }
-pub broadcast proof fn lemma_suffix_trans(a: Seq<u8>, b: Seq<u8>, c: Seq<u8>)
-    requires #[trigger] is_suffix(a, b), #[trigger] is_suffix(b, c)
-    ensures is_suffix(a, c)
-{ assert(a =~= c.subrange(c.len() - a.len(), c.len() as int)); }
-pub broadcast group group_suffix { lemma_suffix_refl, lemma_suffix_skip, lemma_suffix_sub, lemma_suffix_trans }
-}
-pub mod fidx {
-use vstd::prelude::*;
-use super::first_idx;
-pub broadcast proof fn lemma_first_idx_none(s: Seq<u8>, d: u8)
-    requires forall|j: int| 0 <= j < s.len() ==> s[j] != d,
-    ensures #[trigger] first_idx(s, d) == s.len(),
-    decreases s.len(),
-{
-    if s.len() > 0 {
-        assert forall|j: int| 0 <= j < s.skip(1).len() implies s.skip(1)[j] != d by { assert(s.skip(1)[j] == s[j + 1]); }
-        lemma_first_idx_none(s.skip(1), d);
-    }
-}
-pub proof fn lemma_first_idx_some(s: Seq<u8>, d: u8, i: int)
-    requires 0 <= i < s.len(), s[i] == d, forall|j: int| 0 <= j < i ==> s[j] != d,
-    ensures first_idx(s, d) == i,
-    decreases i,
-{
-    if i > 0 {
-        assert(s.skip(1)[i - 1] == s[i]);
-        assert forall|j: int| 0 <= j < i - 1 implies s.skip(1)[j] != d by { assert(s.skip(1)[j] == s[j + 1]); }
-        lemma_first_idx_some(s.skip(1), d, i - 1);
-    }
-}
-pub broadcast group group_first_idx { lemma_first_idx_none }
-}
-pub use sfx::is_suffix;
-broadcast use sfx::group_suffix;
-
-pub assume_specification<R: Read + ?Sized>[ <BufReader<R> as Read>::read_exact ](r: &mut BufReader<R>, buf: &mut [u8]) -> (res: io::Result<()>)
-    ensures
-        final(buf)@.len() == old(buf)@.len(),
-        res.is_ok() ==> old(buf)@.len() <= wire(old(r)).len()
-            && final(buf)@ == wire(old(r)).subrange(0, old(buf)@.len() as int)
-            && wire(final(r)) == wire(old(r)).subrange(old(buf)@.len() as int, wire(old(r)).len() as int),
-        is_suffix(wire(final(r)), wire(old(r))),
-        fault_free(old(r)) ==> fault_free(final(r)),
-        fault_free(old(r)) && old(buf)@.len() <= wire(old(r)).len() ==> res.is_ok(),
-;
-
-pub assume_specification<T: Ord>[std::cmp::min](a: T, b: T) -> (r: T)
-    ensures r == (if b.cmp_spec(&a) == core::cmp::Ordering::Less { b } else { a });
-
-pub assume_specification<'a>[ <&'a [u8] as Read>::read ](s: &mut &'a [u8], buf: &mut [u8]) -> (res: io::Result<usize>)
-    ensures
-        res matches Ok(n) && n == (if old(s)@.len() < old(buf)@.len() { old(s)@.len() } else { old(buf)@.len() }),
-        final(buf)@.len() == old(buf)@.len(),
-        final(buf)@.subrange(0, res.unwrap() as int) == old(s)@.subrange(0, res.unwrap() as int),
-        final(s)@ == old(s)@.subrange(res.unwrap() as int, old(s)@.len() as int),
-;
-
-/// index of first `d` in w, or w.len()
-pub open spec fn first_idx(w: Seq<u8>, d: u8) -> int decreases w.len() {
-    if w.len() == 0 { 0 } else if w[0] == d { 0 } else { 1 + first_idx(w.skip(1), d) }
-}
-pub open spec fn until_len(w: Seq<u8>, n: u64, d: u8) -> int {
-    let lim = if (n as int) < w.len() { n as int } else { w.len() as int };
-    let i = first_idx(w.take(lim), d);
-    if i < lim { i + 1 } else { lim }
-}
-#[verifier::external_body]
-pub fn vp_take_read_until<R: Read>(r: &mut BufReader<R>, n: u64, d: u8, b: &mut Vec<u8>) -> (res: io::Result<usize>)
-    ensures
-        is_suffix(wire(final(r)), wire(old(r))),
-        final(b)@.len() <= old(b)@.len() + n,
-        fault_free(old(r)) ==> fault_free(final(r)) && res.is_ok(),
-        res matches Ok(k) ==> k == until_len(wire(old(r)), n, d)
-            && final(b)@ == old(b)@ + wire(old(r)).take(k as int)
-            && wire(final(r)) == wire(old(r)).skip(k as int),
-{ r.take(n).read_until(d, b) }
-
-#[verifier::external_type_specification]
-#[verifier::external_body]
-pub struct ExUtf8Error(std::str::Utf8Error);
-#[verifier::external_type_specification]
-#[verifier::external_body]
-pub struct ExParseIntError(std::num::ParseIntError);
-pub assume_specification<'a>[ core::str::from_utf8 ](v: &'a [u8]) -> (r: std::result::Result<&'a str, std::str::Utf8Error>)
-    ensures r is Ok <==> utf8_ok(v@), r matches Ok(s) ==> s@ == utf8_chars(v@);
-pub assume_specification[ str::trim ](s: &str) -> (r: &str)
-    ensures r@ == trim_spec(s@);
-pub assume_specification[ usize::from_str_radix ](s: &str, radix: u32) -> (r: std::result::Result<usize, std::num::ParseIntError>)
-    ensures radix == 16 ==> (match r { Ok(v) => hex_spec(s@) == Some(v), Err(_) => hex_spec(s@) is None });
-pub assume_specification<T, U, D: FnOnce() -> U, F: FnOnce(T) -> U>[ Option::<T>::map_or_else ](o: Option<T>, default: D, f: F) -> (r: U)
-    requires o is None ==> default.requires(()), o matches Some(x) ==> f.requires((x,)),
-    ensures o is None ==> default.ensures((), r), o matches Some(x) ==> f.ensures((x,), r);
-pub assume_specification<T, E, U, F: FnOnce(T) -> std::result::Result<U, E>>[ std::result::Result::<T, E>::and_then ](o: std::result::Result<T, E>, f: F) -> (r: std::result::Result<U, E>)
-    requires o matches Ok(x) ==> f.requires((x,)),
-    ensures o matches Ok(x) ==> f.ensures((x,), r), o matches Err(e) ==> r == Err::<U, E>(e);
-/// generic std idiom `s.iter().position(pred)`: index of the first element satisfying pred
-#[verifier::external_body]
-pub fn vp_slice_position<F: FnMut(&u8) -> bool>(s: &[u8], pred: F) -> (r: Option<usize>)
-    requires forall|x: &u8| pred.requires((x,)),
-    ensures
-        r matches Some(i) ==> i < s@.len() && pred.ensures((&s@[i as int],), true)
-            && forall|j: int| 0 <= j < i ==> pred.ensures((&#[trigger] s@[j],), false),
-        r is None ==> forall|j: int| 0 <= j < s@.len() ==> pred.ensures((&#[trigger] s@[j],), false),
-{ s.iter().position(pred) }
-pub enum InvalidResponseKind { ChunkSize, Chunk }
-pub const MAXB: usize = 64 * 1024;
-
-// ===================== spec library =====================
-pub open spec fn le_len(w: Seq<u8>) -> Option<int> {
-    if w.len() >= 1 && w[0] == 10u8 { Some(1) }
-    else if w.len() >= 2 && w[0] == 13u8 && w[1] == 10u8 { Some(2) }
-    else { None }
-}
-pub uninterp spec fn utf8_ok(b: Seq<u8>) -> bool;
-pub uninterp spec fn utf8_chars(b: Seq<u8>) -> Seq<char>;
-pub uninterp spec fn trim_spec(s: Seq<char>) -> Seq<char>;
-pub uninterp spec fn hex_spec(s: Seq<char>) -> Option<usize>;
-/// RFC 9112 7.1: chunk-size is the HEXDIG run before an optional `;ext`; surrounding blanks tolerated
-pub open spec fn chunk_size_spec(line: Seq<u8>) -> Option<usize> {
-    let i = first_idx(line, 59u8);
-    let part = line.take(i);
-    if utf8_ok(part) { hex_spec(trim_spec(utf8_chars(part))) } else { None }
-}
-
-pub open spec fn line_of(w: Seq<u8>, k: int) -> Seq<u8> {
-    if k >= 2 && w[k - 2] == 13u8 { w.take(k - 2) } else { w.take(k - 1) }
-}
-pub open spec fn size_line(w: Seq<u8>) -> Option<(nat, int)> {
-    let k = until_len(w, 128, 10u8);
-    if k < 1 || w[k - 1] != 10u8 { None }
-    else {
-        let line = line_of(w, k);
-        if line.len() == 0 { None } else {
-            match chunk_size_spec(line) { Some(n) => Some((n as nat, k)), None => None }
-        }
-    }
-}
-pub open spec fn piece(rem: nat) -> nat { if rem < MAXB as nat { rem } else { MAXB as nat } }
-pub open spec fn is_prefix(a: Seq<u8>, b: Seq<u8>) -> bool { a.len() <= b.len() && a =~= b.take(a.len() as int) }
-
-pub open spec fn fut(rem: nat, eof: bool, w: Seq<u8>) -> (Seq<u8>, bool)
-    decreases w.len(), 1int,
-{
-    if rem == 0 {
-        if eof { (Seq::<u8>::empty(), true) }
-        else {
-            match size_line(w) {
-                None => (Seq::<u8>::empty(), false),
-                Some((n, k)) =>
-                    if k < 1 || k > w.len() { (Seq::<u8>::empty(), false) }
-                    else if n == 0 { (Seq::<u8>::empty(), le_len(w.skip(k)).is_some()) }
-                    else { fut_data(n, w.skip(k)) }
-            }
-        }
-    } else { fut_data(rem, w) }
-}
-pub open spec fn fut_data(rem: nat, w: Seq<u8>) -> (Seq<u8>, bool)
-    decreases w.len(), 0int,
-    when rem > 0
-{
-    let p = piece(rem);
-    if w.len() < p { (Seq::<u8>::empty(), false) }
-    else {
-        let data = w.take(p as int);
-        let w1 = w.skip(p as int);
-        if rem - p == 0 {
-            match le_len(w1) {
-                None => (Seq::<u8>::empty(), false),
-                Some(j) => { let r = fut(0, false, w1.skip(j)); (data + r.0, r.1) }
-            }
-        } else { let r = fut_data((rem - p) as nat, w1); (data + r.0, r.1) }
-    }
-}
-
-
-// ===================== top-level lemmas (spec level) =====================
-pub mod lemmas {
-use vstd::prelude::*;
-use super::*;
-
-pub open spec fn crlf() -> Seq<u8> { seq![13u8, 10u8] }
-
-pub open spec fn valid_line(l: Seq<u8>, n: nat) -> bool {
-    1 <= l.len() <= 126 && (forall|i: int| 0 <= i < l.len() ==> l[i] != 10u8)
-        && n <= usize::MAX && chunk_size_spec(l) == Some(n as usize)
-}
-
-pub proof fn lemma_first_idx(s: Seq<u8>, d: u8, j: int)
-    requires 0 <= j < s.len(), s[j] == d, forall|i: int| 0 <= i < j ==> s[i] != d,
-    ensures first_idx(s, d) == j,
-    decreases j,
-{
-    if j == 0 { } else {
-        let t = s.skip(1);
-        assert(t[j - 1] == d);
-        assert forall|i: int| 0 <= i < j - 1 implies t[i] != d by { assert(t[i] == s[i + 1]); }
-        lemma_first_idx(t, d, j - 1);
-    }
-}
-
-pub proof fn lemma_size_line(l: Seq<u8>, n: nat, rest: Seq<u8>)
-    requires valid_line(l, n),
-    ensures size_line(l + crlf() + rest) == Some((n, l.len() as int + 2)),
-{
-    let w = l + crlf() + rest;
-    let k: int = l.len() as int + 2;
-    let ll: int = l.len() as int;
-    assert(w.len() >= k);
-    let lim: int = if 128 < w.len() { 128 } else { w.len() as int };
-    assert(lim >= k);
-    let t = w.take(lim);
-    assert(t[ll] == 13u8);
-    assert(t[ll + 1] == 10u8);
-    assert forall|i: int| 0 <= i < ll + 1 implies t[i] != 10u8 by {
-        if i < ll { assert(t[i] == l[i]); }
-    }
-    lemma_first_idx(t, 10u8, ll + 1);
-    assert(until_len(w, 128, 10u8) == k);
-    assert(w[k - 1] == 10u8);
-    assert(w[k - 2] == 13u8);
-    assert(line_of(w, k) =~= l);
-}
-
-pub proof fn lemma_fut_data(n: nat, data: Seq<u8>, rest: Seq<u8>)
-    requires n > 0, data.len() == n,
-    ensures fut_data(n, data + crlf() + rest) == ({ let r = fut(0, false, rest); (data + r.0, r.1) }),
-    decreases n,
-{
-    let w = data + crlf() + rest;
-    let p = piece(n);
-    assert(w.len() >= p);
-    let d0 = w.take(p as int);
-    let w1 = w.skip(p as int);
-    if n - p == 0 {
-        assert(d0 =~= data);
-        assert(w1 =~= crlf() + rest);
-        assert(w1[0] == 13u8 && w1[1] == 10u8);
-        assert(le_len(w1) == Some(2int));
-        assert(w1.skip(2) =~= rest);
-    } else {
-        let data1 = data.skip(p as int);
-        assert(w1 =~= data1 + crlf() + rest);
-        lemma_fut_data((n - p) as nat, data1, rest);
-        let r = fut(0, false, rest);
-        assert(d0 =~= data.take(p as int));
-        assert(d0 + (data1 + r.0) =~= data + r.0);
-    }
-}
-
-pub open spec fn enc(cs: Seq<Seq<u8>>, ls: Seq<Seq<u8>>) -> Seq<u8>
-    decreases cs.len(),
-{
-    if cs.len() == 0 || ls.len() == 0 { Seq::<u8>::empty() }
-    else { ls[0] + crlf() + cs[0] + crlf() + enc(cs.skip(1), ls.skip(1)) }
-}
-pub open spec fn flat(cs: Seq<Seq<u8>>) -> Seq<u8>
-    decreases cs.len(),
-{
-    if cs.len() == 0 { Seq::<u8>::empty() } else { cs[0] + flat(cs.skip(1)) }
-}
-
-pub open spec fn all_valid(cs: Seq<Seq<u8>>, ls: Seq<Seq<u8>>) -> bool {
-    forall|i: int| 0 <= i < cs.len() ==> (#[trigger] cs[i]).len() > 0 && valid_line(ls[i], cs[i].len())
-}
-/// C01, chunked framing: every RFC-shaped chunked body followed by arbitrary trailing bytes decodes to
-/// exactly the concatenated chunk data and ends cleanly; nothing of `tail` is part of it.
-pub proof fn wf_chunked(cs: Seq<Seq<u8>>, ls: Seq<Seq<u8>>, last: Seq<u8>, tail: Seq<u8>)
-    requires
-        cs.len() == ls.len(),
-        all_valid(cs, ls),
-        valid_line(last, 0),
-    ensures
-        fut(0, false, enc(cs, ls) + (last + crlf() + crlf() + tail)) == (flat(cs), true),
-    decreases cs.len(),
-{
-    let term = last + crlf() + crlf() + tail;
-    if cs.len() == 0 {
-        assert(enc(cs, ls) + term =~= last + crlf() + (crlf() + tail));
-        lemma_size_line(last, 0, crlf() + tail);
-        let w = last + crlf() + (crlf() + tail);
-        let k: int = last.len() as int + 2;
-        assert(w.skip(k) =~= crlf() + tail);
-        assert((crlf() + tail)[0] == 13u8 && (crlf() + tail)[1] == 10u8);
-        assert(flat(cs) =~= Seq::<u8>::empty());
-    } else {
-        let l = ls[0]; let c = cs[0];
-        let rest = enc(cs.skip(1), ls.skip(1)) + term;
-        let w = enc(cs, ls) + term;
-        assert(w =~= l + crlf() + (c + crlf() + rest));
-        lemma_size_line(l, c.len(), c + crlf() + rest);
-        let k: int = l.len() as int + 2;
-        assert((l + crlf() + (c + crlf() + rest)).skip(k) =~= c + crlf() + rest);
-        lemma_fut_data(c.len(), c, rest);
-        assert(cs[0].len() > 0 && valid_line(ls[0], cs[0].len()));
-        assert forall|i: int| 0 <= i < cs.skip(1).len() implies (#[trigger] cs.skip(1)[i]).len() > 0 && valid_line(ls.skip(1)[i], cs.skip(1)[i].len()) by {
-            assert(cs.skip(1)[i] == cs[i + 1]);
-            assert(ls.skip(1)[i] == ls[i + 1]);
-        }
-        assert(all_valid(cs.skip(1), ls.skip(1)));
-        wf_chunked(cs.skip(1), ls.skip(1), last, tail);
-        assert(flat(cs) =~= c + flat(cs.skip(1)));
-    }
-}
-}
-
-// ===================== history lemma over the `read` contract =====================
-pub mod session {
-use vstd::prelude::*;
-use super::is_prefix;
-
-pub struct Step {
-    pub ok: bool,            // Ok(n) or Err
-    pub n: nat,
-    pub buflen: nat,
-    pub data: Seq<u8>,       // bytes handed to the caller by this call
-    pub before: (Seq<u8>, bool),
-    pub after: (Seq<u8>, bool),
-}
-/// exactly the postcondition of `ChunkedReader::read` (and of every BodyReader arm)
-pub open spec fn step_ok(s: Step) -> bool {
-    if s.ok {
-        s.n <= s.buflen && s.n <= s.before.0.len() && s.data == s.before.0.take(s.n as int)
-            && s.after.0 == s.before.0.skip(s.n as int) && s.after.1 == s.before.1
-            && (s.n == 0 ==> s.buflen == 0 || s.before == (Seq::<u8>::empty(), true))
-    } else {
-        s.data == Seq::<u8>::empty() && is_prefix(s.after.0, s.before.0)
-    }
-}
-pub open spec fn chained(t: Seq<Step>) -> bool {
-    forall|i: int| 0 <= i < t.len() ==> step_ok(#[trigger] t[i]) && (i + 1 < t.len() ==> t[i + 1].before == t[i].after)
-}
-pub open spec fn delivered(t: Seq<Step>) -> Seq<u8>
-    decreases t.len(),
-{
-    if t.len() == 0 { Seq::<u8>::empty() } else { t[0].data + delivered(t.skip(1)) }
-}
-pub open spec fn all_ok(t: Seq<Step>) -> bool { forall|i: int| 0 <= i < t.len() ==> (#[trigger] t[i]).ok }
-
-proof fn lemma_chained_skip(t: Seq<Step>)
-    requires chained(t), t.len() > 0,
-    ensures chained(t.skip(1)),
-{
-    let u = t.skip(1);
-    assert forall|i: int| 0 <= i < u.len() implies step_ok(#[trigger] u[i]) && (i + 1 < u.len() ==> u[i + 1].before == u[i].after) by {
-        assert(u[i] == t[i + 1]);
-        if i + 1 < u.len() { assert(u[i + 1] == t[i + 2]); }
-    }
-}
-
-/// C02: at every moment -- whatever the read sizes, and across returned errors -- what has been handed out
-/// is a prefix of what the reader owed at the start.
-pub proof fn session_prefix(t: Seq<Step>)
-    requires chained(t), t.len() > 0,
-    ensures is_prefix(delivered(t), t[0].before.0),
-    decreases t.len(),
-{
-    let s = t[0];
-    assert(step_ok(s));
-    if t.len() == 1 {
-        assert(delivered(t.skip(1)) =~= Seq::<u8>::empty());
-        assert(delivered(t) =~= s.data);
-    } else {
-        lemma_chained_skip(t);
-        session_prefix(t.skip(1));
-        let x = delivered(t.skip(1));
-        assert(t.skip(1)[0] == t[1]);
-        assert(t[1].before == s.after);
-        assert(is_prefix(x, s.after.0));
-        if s.ok {
-            assert(s.data + x =~= s.before.0.take((s.n + x.len()) as int));
-        } else {
-            assert(s.data + x =~= x);
-            assert(x =~= s.before.0.take(x.len() as int));
-        }
-    }
-}
-
-/// C01: if no call failed and a call with a non-empty buffer returned 0, everything owed was delivered, exactly
-/// once and in order, and the body ended cleanly.
-pub proof fn session_complete(t: Seq<Step>)
-    requires chained(t), t.len() > 0, all_ok(t), t[t.len() - 1].n == 0, t[t.len() - 1].buflen > 0,
-    ensures delivered(t) == t[0].before.0, t[0].before.1,
-    decreases t.len(),
-{
-    let s = t[0];
-    assert(step_ok(s) && s.ok);
-    if t.len() == 1 {
-        assert(delivered(t.skip(1)) =~= Seq::<u8>::empty());
-        assert(delivered(t) =~= s.data);
-        assert(s.data =~= s.before.0);
-    } else {
-        lemma_chained_skip(t);
-        let u = t.skip(1);
-        assert(u[u.len() - 1] == t[t.len() - 1]);
-        assert forall|i: int| 0 <= i < u.len() implies (#[trigger] u[i]).ok by { assert(u[i] == t[i + 1]); }
-        session_complete(u);
-        assert(u[0] == t[1]);
-        assert(t[1].before == s.after);
-        assert(s.data + s.after.0 =~= s.before.0);
-    }
-}
-}
-// ===================== extracted code =====================
-pub mod buffers {
-use super::*;
-broadcast use super::sfx::group_suffix;
-//@@ fn src/parsing/buffers.rs - read_line props=C01,C02,C05,C19
-//@@ rw R1
-reader.take(max_buf_len).read_until(b'\n', buf)
-//@@ =>
-vp_take_read_until(reader, max_buf_len, b'\n', buf)
-//@@ contract
-    ensures
-        is_suffix(wire(final(reader)), wire(old(reader))), // id: wire_only_advances [C01,C02]
-        fault_free(old(reader)) ==> fault_free(final(reader)), // id: fault_free_kept [C02]
-        final(buf)@.len() <= max_buf_len, // id: line_buffer_capped [C05]
-        res matches Ok(n) ==> n == until_len(wire(old(reader)), max_buf_len, 10u8) && n >= 1 // id: line_is_wire_prefix [C01,C02,C19]
-            && wire(final(reader)) == wire(old(reader)).skip(n as int)
-            && wire(old(reader))[n - 1] == 10u8
-            && final(buf)@.len() <= max_buf_len
-            && final(buf)@ == line_of(wire(old(reader)), n as int),
-        fault_free(old(reader)) && ({ let k = until_len(wire(old(reader)), max_buf_len, 10u8); k >= 1 && wire(old(reader))[k - 1] == 10u8 }) ==> res.is_ok(), // id: complete_line_is_ok [C01]
-//@@ end
-
-//@@ fn src/parsing/buffers.rs - read_line_ending props=C01,C02,C05,C19
-//@@ contract
-    ensures
-        res matches Ok(true) ==> le_len(wire(old(reader))) matches Some(k) && wire(final(reader)) == wire(old(reader)).skip(k), // id: line_ending_consumed_exactly [C01,C19]
-        res matches Ok(false) ==> le_len(wire(old(reader))) is None, // id: false_only_without_line_ending [C02]
-        is_suffix(wire(final(reader)), wire(old(reader))), // id: wire_only_advances [C01,C02]
-        fault_free(old(reader)) ==> fault_free(final(reader)), // id: fault_free_kept [C02]
-        fault_free(old(reader)) && le_len(wire(old(reader))) is Some ==> res.is_ok(), // id: present_line_ending_is_ok [C01]
-//@@ end
-}
-
-//@@ fn src/parsing/chunked_reader.rs - parse_chunk_size props=C01,C02,C05
-//@@ rw R5
-|&b| b == b';'
-//@@ =>
-|b_ref| -> (r: bool) ensures r == (*b_ref == 59u8) { let b = *b_ref; b == b';' }
-//@@ rw R1
-line.iter()
-        .position(
-//@@ =>
-vp_slice_position(line,
-//@@ rw R5
-|| str::from_utf8(line)
-//@@ =>
-|| -> (r: std::result::Result<&str, std::str::Utf8Error>) ensures (r is Ok <==> utf8_ok(line@)), (r matches Ok(s) ==> s@ == utf8_chars(line@)) { str::from_utf8(line) }
-//@@ rw R5
-|idx| str::from_utf8(&line[..idx])
-//@@ =>
-|idx: usize| -> (r: std::result::Result<&str, std::str::Utf8Error>) requires idx <= line@.len() ensures (r is Ok <==> utf8_ok(line@.take(idx as int))), (r matches Ok(s) ==> s@ == utf8_chars(line@.take(idx as int))) { str::from_utf8(&line[..idx]) }
-//@@ rw R5
-|line| usize::from_str_radix(line.trim(), 16).map_err(|_| InvalidResponseKind::ChunkSize)
-//@@ =>
-|line: &str| -> (r: std::result::Result<usize, InvalidResponseKind>) ensures (match r { Ok(v) => hex_spec(trim_spec(line@)) == Some(v), Err(_) => hex_spec(trim_spec(line@)) is None }) { usize::from_str_radix(line.trim(), 16).map_err(|_vp1| InvalidResponseKind::ChunkSize) }
-//@@ rw R5
-|_| InvalidResponseKind::ChunkSize
-//@@ =>
-|_vp0| InvalidResponseKind::ChunkSize
-//@@ splice before
-vp_slice_position(line,
-//@@ with
-    broadcast use fidx::group_first_idx;
-    proof {
-        assert(line@.take(line@.len() as int) =~= line@);
-        assert forall|i: int| 0 <= i < line@.len() && #[trigger] line@[i] == 59u8 && (forall|j: int| 0 <= j < i ==> line@[j] != 59u8)
-            implies first_idx(line@, 59u8) == i by { fidx::lemma_first_idx_some(line@, 59u8, i); }
-    }
-//@@ contract
-    ensures
-        res matches Ok(n) ==> chunk_size_spec(line@) == Some(n), // id: size_is_hex_of_line_before_ext [C01,C02]
-        res is Err ==> chunk_size_spec(line@) is None, // id: err_only_for_unparsable_size [C01,C05]
-//@@ end
-
-/// bytes a successful refill takes from the wire: [size line] + piece + [line ending iff the piece ends the chunk]
-pub open spec fn demand(rem: nat, w: Seq<u8>) -> int {
-    if rem == 0 {
-        match size_line(w) {
-            Some((n, k)) => k + demand_data(n, w.skip(k)),
-            None => 0,
-        }
-    } else { demand_data(rem, w) }
-}
-pub open spec fn demand_data(rem: nat, w: Seq<u8>) -> int {
-    let p = piece(rem);
-    if rem - p == 0 {
-        match le_len(w.skip(p as int)) { Some(j) => p + j, None => p as int }
-    } else { p as int }
-}
-
-//@@ item src/parsing/chunked_reader.rs struct ChunkedReader
-//@@ end
-
-impl<R> ChunkedReader<R>
-where
-    R: Read,
-{
-    pub closed spec fn inv(&self) -> bool {
-        self.consumed <= self.buffer@.len() <= MAXB && (self.reached_eof ==> self.remaining == 0)
-    }
-    pub closed spec fn pending(&self) -> Seq<u8> { self.buffer@.skip(self.consumed as int) }
-    pub closed spec fn owed(&self) -> (Seq<u8>, bool) {
-        let f = fut(self.remaining as nat, self.reached_eof, wire(&self.inner));
-        (self.pending() + f.0, f.1)
-    }
-    pub closed spec fn ff(&self) -> bool { fault_free(&self.inner) }
-
-//@@ fn src/parsing/chunked_reader.rs impl<R>~ChunkedReader<R> new props=C01
-//@@ contract
-        ensures res.inv(), res.owed() == fut(0, false, wire(&reader)), res.ff() == fault_free(&reader), // id: fresh_reader_owes_decoded_wire [C01]
-//@@ end
-
-//@@ fn src/parsing/chunked_reader.rs impl<R>~ChunkedReader<R> read_chunk_size props=C01,C02,C05,C19
-//@@ contract
-        ensures
-            final(self).consumed == old(self).consumed, // id: frame [C02]
-            final(self).remaining == old(self).remaining,
-            final(self).reached_eof == old(self).reached_eof,
-            final(self).buffer@.len() <= 128, // id: size_line_capped_128 [C05]
-            is_suffix(wire(&final(self).inner), wire(&old(self).inner)), // id: wire_only_advances [C02]
-            old(self).ff() ==> final(self).ff(), // id: fault_free_kept [C02]
-            res matches Ok(n) ==> size_line(wire(&old(self).inner)) matches Some((m, k)) && m == n // id: size_is_spec_of_line [C01,C02,C19]
-                && 1 <= k <= wire(&old(self).inner).len() && wire(&final(self).inner) == wire(&old(self).inner).skip(k),
-            old(self).ff() && size_line(wire(&old(self).inner)) is Some ==> res.is_ok(), // id: valid_size_line_is_ok [C01]
-//@@ end
-
-//@@ fn src/parsing/chunked_reader.rs impl<R>~ChunkedReader<R> refill props=C01,C02,C05,C19
-//@@ contract
-        requires old(self).inv(), old(self).buffer@.len() == old(self).consumed, !(old(self).remaining == 0 && old(self).reached_eof), // id: refill_pre [C05]
-        ensures
-            is_suffix(wire(&final(self).inner), wire(&old(self).inner)), // id: wire_only_advances [C02]
-            old(self).ff() ==> final(self).ff(), // id: fault_free_kept [C02]
-            res is Ok ==> final(self).inv() && final(self).owed() == old(self).owed() // id: refill_preserves_owed [C01,C02]
-                && (final(self).pending().len() > 0 || (final(self).remaining == 0 && final(self).reached_eof && final(self).owed() == (Seq::<u8>::empty(), true))),
-            res is Ok ==> final(self).buffer@.len() <= MAXB, // id: buffer_capped_64k [C05]
-            old(self).ff() && old(self).owed().1 ==> res is Ok, // id: wellformed_never_errors [C01]
-            res is Ok ==> wire(&old(self).inner).len() - wire(&final(self).inner).len() == demand(old(self).remaining as nat, wire(&old(self).inner)), // id: demand_is_exactly_this_piece [C19]
-//@@ end
-
-//@@ fn src/parsing/chunked_reader.rs BufRead~for~ChunkedReader fill_buf props=C01,C02,C05,C19
-//@@ contract
-        requires old(self).inv(), // id: inv_pre [C05]
-        ensures
-            final(self).inv(), // id: inv_at_every_exit [C02,C05]
-            old(self).ff() ==> final(self).ff(), // id: fault_free_kept [C02]
-            res matches Ok(s) ==> s@ == final(self).pending() && final(self).owed() == old(self).owed() // id: ok_hands_out_owed_bytes [C01,C02]
-                && (s@.len() == 0 ==> old(self).owed() == (Seq::<u8>::empty(), true)),
-            res is Err ==> is_prefix(final(self).owed().0, old(self).owed().0), // id: no_fabrication_after_err [C02]
-            old(self).ff() && old(self).owed().1 ==> res is Ok, // id: wellformed_never_errors [C01]
-            old(self).pending().len() > 0 ==> wire(&final(self).inner) == wire(&old(self).inner) && res is Ok, // id: buffered_data_needs_no_wire [C19]
-//@@ end
-
-//@@ fn src/parsing/chunked_reader.rs BufRead~for~ChunkedReader consume props=C01,C02,C05
-//@@ contract
-        requires old(self).inv(), amt <= old(self).pending().len(), // id: bufread_protocol_pre [C05]
-        ensures final(self).inv(), final(self).owed().0 == old(self).owed().0.skip(amt as int), final(self).owed().1 == old(self).owed().1, // id: consume_skips_exactly_amt [C01,C02]
-            final(self).ff() == old(self).ff(),
-//@@ end
-
-//@@ fn src/parsing/chunked_reader.rs Read~for~ChunkedReader read props=C01,C02,C05,C19
-//@@ contract
-        requires old(self).inv(), // id: inv_pre [C05]
-        ensures
-            final(self).inv(), // id: inv_at_every_exit [C02,C05]
-            final(buf)@.len() == old(buf)@.len(),
-            old(self).ff() ==> final(self).ff(), // id: fault_free_kept [C02]
-            res matches Ok(n) ==> n <= old(buf)@.len() && n <= old(self).owed().0.len() // id: read_delivers_owed_prefix [C01,C02]
-                && final(buf)@.take(n as int) == old(self).owed().0.take(n as int)
-                && final(self).owed().0 == old(self).owed().0.skip(n as int)
-                && final(self).owed().1 == old(self).owed().1
-                && (n == 0 ==> old(buf)@.len() == 0 || old(self).owed() == (Seq::<u8>::empty(), true)),
-            res is Err ==> is_prefix(final(self).owed().0, old(self).owed().0), // id: no_fabrication_after_err [C02]
-            old(self).ff() && old(self).owed().1 ==> res is Ok, // id: wellformed_never_errors [C01]
-//@@ end
-}
-
+//@@ include io_prelude
+//@@ include framing_spec
+//@@ include framing_code
 }
 impl From<InvalidResponseKind> for io::Error {
     fn from(kind: InvalidResponseKind) -> io::Error {
